@@ -354,7 +354,7 @@ func splitKey(k string) (string, string) {
 func main() {
 	in := flag.String("in", "", "")
 	out := flag.String("out", "", "")
-	mode := flag.String("mode", "history", "history | keys")
+	mode := flag.String("mode", "history", "history | ns | keys")
 	flag.Parse()
 	if *mode == "keys" {
 		if err := cmdKeys(*in, *out); err != nil {
@@ -393,7 +393,12 @@ func main() {
 	of, _ := os.OpenFile(*out, os.O_APPEND|os.O_WRONLY|os.O_CREATE, 0o644)
 	defer of.Close()
 	for n := supervise.Skip(); n < len(cases); n++ {
-		r := replayCase(n, cases[n], ms)
+		var r Result
+		if *mode == "ns" {
+			r = replayNsCase(n, cases[n], ms)
+		} else {
+			r = replayCase(n, cases[n], ms)
+		}
 		b, _ := json.Marshal(r)
 		of.Write(append(b, '\n'))
 	}
